@@ -47,14 +47,17 @@ theorem proto_rootHash_frame (t : WT) :
   unfold rootHash
   split <;> exact ⟨rfl, rfl, rfl, rfl⟩
 
-/-- `created` after `Commit`: freshly listed (dirty root), or the old list (clean root) -/
+/-- `created` after `Commit`: freshly listed (dirty root), or the old list or the empty one (clean root) -/
 theorem proto_commit_created (t : WT) (lvl : Int) (h : Bytes) (hdb : t.hasDb = true)
     (hc : h ∈ (commit H t lvl).1.created) : t.store.get h = none ∨ h ∈ t.created := by
   by_cases hd : t.root.dirty = true
   · exact .inl (commit_created_fresh H t lvl h hdb hc hd)
   · have hd' : t.root.dirty = false := by simpa using hd
     rw [(commit_clean_eq (H := H) lvl t hd').1] at hc
-    exact .inr hc
+    simp only at hc
+    split at hc
+    · exact .inr hc
+    · cases hc
 
 theorem proto_dirty_of_dirtyCached : ∀ {n : WN}, dirtyCached n = [] → n.dirty = false := by
   intro n h
